@@ -16,20 +16,21 @@ import (
 
 // CEnv evaluates contract expressions over a symbolic state.
 type CEnv struct {
-	ex      *Exec
-	fr      *Frame
-	st      *State
-	old     *State
-	vars    map[string]Val
-	over    map[ssa.Value]Val
-	atBlock *ssa.BasicBlock
-	atEnd   bool
-	pkg     *types.Package
-	pc      *PkgContracts
-	cl      *Clause
-	depth   int
+	ex         *Exec
+	fr         *Frame
+	st         *State
+	old        *State
+	vars       map[string]Val
+	over       map[ssa.Value]Val
+	atBlock    *ssa.BasicBlock
+	atEnd      bool
+	pkg        *types.Package
+	pc         *PkgContracts
+	cl         *Clause
+	depth      int
 	boundNames map[string]bool
 	entryVals  bool
+	loop       *loopInfo // set while evaluating a loop assertion: head(e) refers to the loop-head values
 }
 
 func (ex *Exec) envFor(fr *Frame, st, old *State, over map[ssa.Value]Val) *CEnv {
@@ -129,7 +130,12 @@ func (e *CEnv) eval(x Expr) Val {
 		return e.binary(n)
 	case *ECond:
 		cnd := e.eval(n.C)
-		a, b := e.eval(n.A), e.eval(n.B)
+		// each branch is evaluated knowing its condition (lets a division pick its simple form)
+		e.ex.localFacts = append(e.ex.localFacts, cnd.Tm)
+		a := e.eval(n.A)
+		e.ex.localFacts[len(e.ex.localFacts)-1] = c.Not(cnd.Tm)
+		b := e.eval(n.B)
+		e.ex.localFacts = e.ex.localFacts[:len(e.ex.localFacts)-1]
 		a, b = e.unify(a, b)
 		return Val{T: a.T, Tm: c.Ite(cnd.Tm, a.Tm, b.Tm)}
 	case *ELet:
@@ -189,6 +195,20 @@ func (e *CEnv) eval(x Expr) Val {
 
 func (e *CEnv) unify(a, b Val) (Val, Val) {
 	c := e.ex.W.C
+	// integer literal against a bit-vector modelled value
+	if a.Tm != nil && b.Tm != nil {
+		if a.Tm.Sort.IsBV() && b.Tm.Sort == smt.Int {
+			if n, ok := b.Tm.IntVal(); ok {
+				w := a.Tm.Sort.BVWidth()
+				b = Val{T: a.T, Tm: c.BVLit(new(big.Int).Mod(n, pow2(uint(w))).Uint64(), w)}
+			} else {
+				b = Val{T: a.T, Tm: c.App(fmt.Sprintf("(_ int2bv %d)", a.Tm.Sort.BVWidth()), a.Tm.Sort, b.Tm)}
+			}
+		} else if b.Tm.Sort.IsBV() && a.Tm.Sort == smt.Int {
+			b2, a2 := e.unify(b, a)
+			return a2, b2
+		}
+	}
 	if a.Tm != nil && b.Tm != nil && a.Tm.Sort != b.Tm.Sort {
 		if a.Tm.Sort == smt.Int && b.Tm.Sort == smt.Real {
 			a = Val{T: b.T, Tm: c.ToReal(a.Tm)}
@@ -254,6 +274,28 @@ func (e *CEnv) binary(n *EBinary) Val {
 	a, b = e.unify(a, b)
 	if a.Tm == nil || b.Tm == nil || a.Tm.Sort != b.Tm.Sort {
 		e.fail("operator %s on %s and %s", n.Op, a.T, b.T)
+	}
+	if a.Tm.Sort.IsBV() {
+		bs := a.Tm.Sort
+		switch n.Op {
+		case "&":
+			return Val{T: a.T, Tm: c.App("bvand", bs, a.Tm, b.Tm)}
+		case "|":
+			return Val{T: a.T, Tm: c.App("bvor", bs, a.Tm, b.Tm)}
+		case "^":
+			return Val{T: a.T, Tm: c.App("bvxor", bs, a.Tm, b.Tm)}
+		case "&^":
+			return Val{T: a.T, Tm: c.App("bvand", bs, a.Tm, c.App("bvnot", bs, b.Tm))}
+		case "<":
+			return Val{T: tBool, Tm: c.App("bvult", smt.Bool, a.Tm, b.Tm)}
+		case "<=":
+			return Val{T: tBool, Tm: c.App("bvule", smt.Bool, a.Tm, b.Tm)}
+		case ">":
+			return Val{T: tBool, Tm: c.App("bvugt", smt.Bool, a.Tm, b.Tm)}
+		case ">=":
+			return Val{T: tBool, Tm: c.App("bvuge", smt.Bool, a.Tm, b.Tm)}
+		}
+		e.fail("operator %s on bit-vector modelled type %s", n.Op, a.T)
 	}
 	switch n.Op {
 	case "<":
@@ -363,6 +405,9 @@ func (e *CEnv) constObj(o *types.Const) Val {
 		if isFloat(t) {
 			return Val{T: t, Tm: c.RealLit(new(big.Rat).SetInt(n))}
 		}
+		if bw, ok := e.ex.W.BVWidth(t); ok {
+			return Val{T: t, Tm: c.BVLit(new(big.Int).Mod(n, pow2(uint(bw))).Uint64(), bw)}
+		}
 		return Val{T: t, Tm: c.BigLit(n)}
 	case constant.Float:
 		r := new(big.Rat)
@@ -400,6 +445,18 @@ func (e *CEnv) lookupLocal(name string) (Val, bool) {
 			if phi.Comment == name {
 				return get(phi), true
 			}
+		}
+	}
+	// captured variables of a function literal: the free variable holds the address of the variable
+	for _, fv := range fr.fn.FreeVars {
+		if fv.Name() == name {
+			v := get(fv)
+			if _, isPtr := fv.Type().Underlying().(*types.Pointer); isPtr {
+				a := e.ex.toAddr(v)
+				t := e.ex.typeAt(a)
+				return e.ex.loaded(t, e.ex.load(e.st, a), e.st), true
+			}
+			return v, true
 		}
 	}
 	var found ssa.Value
@@ -778,18 +835,48 @@ func (e *CEnv) call(n *ECall) Val {
 				e.fail("mk: wrong number of fields for %s", t)
 			}
 			var fs []*smt.Term
-			for _, a := range n.Args[1:] {
-				fs = append(fs, e.eval(a).Tm)
+			for i, a := range n.Args[1:] {
+				ft := e.eval(a).Tm
+				if dt.Sorts[i].IsBV() && ft.Sort == smt.Int {
+					if nv, ok := ft.IntVal(); ok {
+						ft = c.BVLit(new(big.Int).Mod(nv, pow2(uint(dt.Sorts[i].BVWidth()))).Uint64(), dt.Sorts[i].BVWidth())
+					} else {
+						ft = c.App(fmt.Sprintf("(_ int2bv %d)", dt.Sorts[i].BVWidth()), dt.Sorts[i], ft)
+					}
+				}
+				fs = append(fs, ft)
 			}
 			return Val{T: t, Tm: c.Construct(dt, fs...)}
+		case "pen": // pen(): the rendition and hyperlink a terminal has after the tokens emitted so far
+			k := e.ex.penKey()
+			return Val{T: e.ex.styleType(), Tm: e.ex.heapGet(e.st, k)}
+		case "head": // head(e): the value of e at the head of the current iteration (loop assertions only)
+			if e.loop == nil || e.loop.headSt == nil {
+				e.fail("head() is only available in loop assertions")
+			}
+			s := e.sub()
+			s.st = e.loop.headSt
+			s.atBlock = e.loop.header
+			s.atEnd = false
+			return s.eval(n.Args[0])
 		case "bit": // bit(m, k): bit k of the integer m (two's complement), via the bit-vector bridge
 			m := e.eval(n.Args[0])
 			kv, ok := e.eval(n.Args[1]).Tm.IntVal()
 			if !ok || !kv.IsInt64() || kv.Int64() < 0 || kv.Int64() > 62 {
 				e.fail("bit(m, k): k must be a literal in 0..62")
 			}
+			if m.Tm.Sort.IsBV() {
+				if int(kv.Int64()) >= m.Tm.Sort.BVWidth() {
+					return Val{T: tBool, Tm: c.False()}
+				}
+				ext := c.App(fmt.Sprintf("(_ extract %d %d)", kv.Int64(), kv.Int64()), smt.BVSort(1), m.Tm)
+				return Val{T: tBool, Tm: c.Eq(ext, c.BVLit(1, 1))}
+			}
 			w := 8
 			if bw, ok := e.ex.bitsFor(m.T); ok {
+				w = bw
+			}
+			if bw, ok := e.ex.W.BridgeWidth(m.T); ok {
 				w = bw
 			}
 			if int(kv.Int64()) >= w {
@@ -952,6 +1039,12 @@ func (e *CEnv) applyPred(pd *PredDecl, args []Expr) Val {
 			sorts = append(sorts, v.Tm.Sort)
 		}
 		name := "uf_" + pd.Name
+		if isUnsigned(resT) {
+			if e.ex.unsignedUF == nil {
+				e.ex.unsignedUF = map[string]bool{}
+			}
+			e.ex.unsignedUF[name] = true
+		}
 		e.ex.W.C.DeclareFun(name, sorts, e.ex.W.SortOf(resT))
 		return Val{T: resT, Tm: e.ex.W.C.App(name, e.ex.W.SortOf(resT), ts...)}
 	}
@@ -1002,6 +1095,20 @@ func (e *CEnv) lookupTypeName(name string) types.Type {
 // convertSpec is a conversion inside a specification: mathematical (no wrap) between integer types.
 func (e *CEnv) convertSpec(v Val, t types.Type) Val {
 	c := e.ex.W.C
+	if v.Tm.Sort.IsBV() {
+		if _, ok := e.ex.W.BVWidth(t); ok {
+			return Val{T: t, Tm: v.Tm}
+		}
+		if isInteger(t) {
+			return Val{T: t, Tm: c.App("bv2nat", smt.Int, v.Tm)}
+		}
+	}
+	if bw, ok := e.ex.W.BVWidth(t); ok && v.Tm.Sort == smt.Int {
+		if nv, isLit := v.Tm.IntVal(); isLit {
+			return Val{T: t, Tm: c.BVLit(new(big.Int).Mod(nv, pow2(uint(bw))).Uint64(), bw)}
+		}
+		return Val{T: t, Tm: c.App(fmt.Sprintf("(_ int2bv %d)", bw), smt.BVSort(bw), v.Tm)}
+	}
 	switch {
 	case isInteger(t) && v.Tm.Sort == smt.Int:
 		return Val{T: t, Tm: v.Tm}
